@@ -45,6 +45,7 @@ def program_set(tier: str, seed: int, *, max_nodes_quick: int = 3, max_nodes_tho
         'fixed': list(genum.FIXED_PROGRAMS),
         'sampled': sampled,
         'illegal': list(genum.ILLEGAL_PROGRAMS),
+        'verbatim': list(genum.VERBATIM_PROGRAMS),   # partial verbatim fragments: C01 / C14 / C15 only
     }
     if cap:
         for k in ('exhaustive', 'conditional', 'sampled'):
